@@ -141,6 +141,7 @@ def rule_I10(ctx):
            "" if not bad_raw else f"`{norm(bad_raw[0])}` reads the table stream directly, outside any handler for a failed sector read: on a truncated image the error "
            "aborts the whole directory", inst="akai-table:raw-read")
     _i10_volume_stream(ctx)
+    _i10_partition_accept(ctx)
 
 
 
@@ -173,6 +174,23 @@ def _i10_volume_stream(ctx):
                 seen.add(pos_[0] if pos_ else "?")
     ok = bool(seen) and seen <= {"(self.sat(context)).get_segment(volume_entry.start)", "(self.sat).get_segment(volume_entry.start)"}
     ctx.ob("I10", va, "the volume's file table is parsed from its segment's sector stream itself", ok, "" if ok else f"parsed from {sorted(seen)}", inst="volume-body-stream")
+
+
+def _i10_partition_accept(ctx):
+    """a partition whose header parses is taken as it is, however much of it the (possibly cut) file still holds: the adapter refuses a
+    header only for an undecodable name and for a non-positive size - what is missing shows up later, file by file"""
+    pa = ctx.fn(AK + "partition.py", "PartitionAdapter._parse", "I10")
+    ok, det, n_raise = True, "", 0
+    for p in run_paths(ctx, pa, rule="I10", include_exc=True, limit=4000):
+        if p.end != "raise":
+            continue
+        n_raise += 1
+        via_handler = any(s_.kind == "except" for s_ in p.steps)
+        conds = [(c_.replace("~", ""), t_) for c_, t_, _n in p.conds]
+        size_guard = len(conds) == 1 and conds[0][1] and conds[0][0].endswith(".header.size <= 0")
+        if not ((via_handler and not conds) or size_guard):
+            ok, det = False, f"a header is also refused under [{' & '.join(('' if t_ else 'not ') + c_[-70:] for c_, t_ in conds)}]"
+    ctx.ob("I10", pa, "a parsed partition header is refused only for an undecodable name or a non-positive size", ok and n_raise >= 2, det, inst="partition-accept")
 
 
 def rule_I11(ctx):
